@@ -409,6 +409,7 @@ func RunW2(opt *W2Opt, plan, sched *simrt.Source, trace bool) *RunOut {
 			c.Method = MPoolEMMulti
 		}
 		c.HasOpt = g.Pct(opt.OptPct)
+		c.PresetTag = false // (requests overlap here: each has its own Stag)
 		c.OddKeys = g.Pct(12)
 		if HasTag(c.Method) && g.Pct(opt.NilTagPct) {
 			w.NilTag[c.Idx] = true
@@ -599,7 +600,11 @@ func RunW2(opt *W2Opt, plan, sched *simrt.Source, trace bool) *RunOut {
 	run.OnQuiescent = ct.onQuiescent
 	run.Execute(func() {
 		var err error
-		pool, err = engine.NewGenginePool(int64(w.Min), int64(w.Max), em, text, nil)
+		var apis map[string]interface{}
+		if sc.NeedApi {
+			apis = map[string]interface{}{"QA": int64(ApiValue)}
+		}
+		pool, err = engine.NewGenginePool(int64(w.Min), int64(w.Max), em, text, apis)
 		if err != nil {
 			w.InitErr = err
 			return
